@@ -112,7 +112,7 @@ SPACES = {
                   gain=[1, 2, 64], conversion=[1, 2, 64], newline=["\n", "\r\n"]),
         read=dict(dfn=DFN, kwargs=["none", "empty"], pathtype=["str", "path", "memory"])),
     "peer": dict(
-        file=dict(payload=["ramp", "mixed", "zeros"], style=["fortran", "c"], n=N_SAMPLES,
+        file=dict(payload=["ramp", "mixed", "zeros"], style=["fortran", "c", "int2", "int4"], n=N_SAMPLES,
                   dt=[".0200", ".0050", "0.0100"],
                   codes=["UP,360,90", "UP,0,90", "VER,360,90", "UP,000,090", "UP,90,360",
                          "UP,20,110", "UP,90,180", "UP,315,45", "UP,45,315", "VER,315,45",
@@ -134,7 +134,7 @@ MALFORMED = {
     "minishark": ["ndat+1", "ndat-1", "ndat+1000", "row-missing-column", "empty-file", "random-bytes",
                   "text-garbage", "no-gain"],
     "peer": ["ndat+1", "ndat-1", "missing-horizontal", "missing-vertical", "duplicated-horizontal",
-             "duplicated-vertical", "duplicated-letter-horizontal", "empty-file", "random-bytes",
+             "duplicated-horizontal-mod360", "duplicated-vertical", "duplicated-letter-horizontal", "empty-file", "random-bytes",
              "single-file"],
     "mseed1": ["two-traces", "four-traces", "duplicated-component", "all-same-component",
                "empty-file", "random-bytes", "text-garbage"],
@@ -703,6 +703,16 @@ def build_malformed(wd, fmt, variant):
             return [("-".join(k), [dict(UP=up, a=h90, b=h90b)[x] for x in k])
                     for k in (("UP", "a", "b"), ("a", "UP", "b"), ("b", "a", "UP"))] + \
                    [("UP,360,360", [up, h0, h0b]), ("same-file-twice", [up, h90, h90])]
+        if variant == "duplicated-horizontal-mod360":
+            # two horizontals whose numeric codes differ as text / integers but name the same direction:
+            # every pair of spellings of north in {0, 00, 000, 360} that are different integers, both ways
+            # round, x three positions of the vertical; the two files hold different samples
+            for ca, cb in (("360", "0"), ("0", "360"), ("360", "000"), ("000", "360"), ("360", "00")):
+                ha = wr(f"m{ca}_a.vt2", "ns", ca)
+                hb = wr(f"m{cb}_b.vt2", "ew", cb, tk=extra)
+                for k in (("UP", "a", "b"), ("a", "UP", "b"), ("a", "b", "UP")):
+                    out.append((f"{ca},{cb}:" + "-".join(k), [dict(UP=up, a=ha, b=hb)[x] for x in k]))
+            return out
         if variant == "duplicated-vertical":
             upb = wr("upb.vt2", "vt", "UP", tk=extra)
             return [("UP,UP,90", [up, upb, h90]), ("90,UP,UP", [h90, up, upb]), ("UP,90,UP", [up, h90, upb])]
@@ -1960,6 +1970,10 @@ def describe(tier):
             "SAF with CH1 = E: NORTH_ROT+90 and NORTH_ROT-90 are both accepted; SAF layouts whose CH1 is the "
             "vertical may be refused when no explicit orientation is given",
             "PEER codes equidistant from north: either horizontal may be north, but ns and ew must be different files",
+            "PEER samples are written in the spellings '.1234567E-03' (mantissa in [0.1,1), no leading zero), "
+            "'1.234567e-04' (lower-case e), '12.34567E-05' and '1234.567E-7' (2 / 4 integer digits; exponent without "
+            "padding or '+'): all denote float(token); numeric PEER codes that are equal modulo 360 (360 with 0 / 00 "
+            "/ 000, both ways round, 3 positions of the vertical) count as a duplicated horizontal component",
             "'to single precision' = relative error <= 2**-22 per sample for SAF and MiniShark",
             "SAF SAMP_FREQ and NORTH_ROT are real numbers in the SESAME standard: one fractional value of each "
             "(62.5 Hz, 15.5 degrees) is part of the SAF alphabet, reported under its own input class",
